@@ -409,7 +409,10 @@ def _amen_solve_python(A, b, nswp=22, x0=None, eps=1e-10, rmax=1024, max_full=50
             normA[k-1] = norm
             Phis[k] = Phis[k] / norm
             norm = tn.linalg.norm(Phis_b[k])
-            norm = norm if norm > 0 else 1.0
+            # a projection of the rhs at roundoff level is zero: normalising it would blow the noise up
+            if not norm > 8 * tn.finfo(dtype).eps * tn.linalg.norm(Phis_b[k+1]) * tn.linalg.norm(b.cores[k]) * tn.linalg.norm(x_cores[k]):
+                Phis_b[k] = Phis_b[k] * 0
+                norm = 1.0
             normb[k-1] = norm
             Phis_b[k] = Phis_b[k]/norm
 
@@ -502,21 +505,25 @@ def _amen_solve_python(A, b, nswp=22, x0=None, eps=1e-10, rmax=1024, max_full=50
                     drhs = Op.matvec(previous_solution, False)
                     drhs = rhs-drhs
                     eps_local = eps_local / tn.linalg.norm(drhs)
-                    if local_solver == 1:
-                        solution_now, flag, nit = gmres_restart(
-                            Op, drhs, previous_solution*0, rhs.shape[0], local_iterations+1, eps_local, resets)
-                    elif local_solver == 2:
-                        solution_now, flag, nit, _ = BiCGSTAB_reset(
-                            Op, drhs, previous_solution*0, eps_local, local_iterations)
+                    if not norm_rhs > 0:
+                        # zero local right-hand side: the local solution is zero (a Krylov solve with tolerance 0 would break down)
+                        solution_now, flag, nit = previous_solution*0, 0, 0
                     else:
-                        raise InvalidArguments('Solver not implemented.')
+                        if local_solver == 1:
+                            solution_now, flag, nit = gmres_restart(
+                                Op, drhs, previous_solution*0, rhs.shape[0], local_iterations+1, eps_local, resets)
+                        elif local_solver == 2:
+                            solution_now, flag, nit, _ = BiCGSTAB_reset(
+                                Op, drhs, previous_solution*0, eps_local, local_iterations)
+                        else:
+                            raise InvalidArguments('Solver not implemented.')
 
-                    if preconditioner != None:
-                        solution_now = Op.apply_prec(
-                            tn.reshape(solution_now, shape_now))
-                        solution_now = tn.reshape(solution_now, [-1, 1])
+                        if preconditioner != None:
+                            solution_now = Op.apply_prec(
+                                tn.reshape(solution_now, shape_now))
+                            solution_now = tn.reshape(solution_now, [-1, 1])
 
-                    solution_now = previous_solution + solution_now
+                        solution_now = previous_solution + solution_now
                     res_old = tn.linalg.norm(
                         Op.matvec(previous_solution, False)-rhs)/norm_rhs
                     res_new = tn.linalg.norm(
@@ -643,7 +650,9 @@ def _amen_solve_python(A, b, nswp=22, x0=None, eps=1e-10, rmax=1024, max_full=50
                 normA[k] = norm
                 Phis[k+1] = Phis[k+1] / norm
                 norm = tn.linalg.norm(Phis_b[k+1])
-                norm = norm if norm > 0 else 1.0
+                if not norm > 8 * tn.finfo(dtype).eps * tn.linalg.norm(Phis_b[k]) * tn.linalg.norm(b.cores[k]) * tn.linalg.norm(x_cores[k]):
+                    Phis_b[k+1] = Phis_b[k+1] * 0
+                    norm = 1.0
                 normb[k] = norm
                 Phis_b[k+1] = Phis_b[k+1] / norm
 
